@@ -29,7 +29,7 @@ GridSeq == <<
   S("1,2"), S("b"), S("ab"), S("true"), S("null"), S("undefined"), S("NaN"), S(".5"), S("5."), S("+5"), S("1e"),
   S("0x"), S("-0x10"), S("1e1000"), S("-1e-400"), S("9007199254740993"), S("1E3"), S("0.1"), S("Infinit"), S("infinity"),
   VStr(<<65279, 49, 160>>), VStr(<<28, 49>>), VStr(<<9, 10, 49, 50, 13>>), S("1 2"), S("1e21"), S("1e-7"), S("1000000000000000000000"),
-  S("12px"), S("-"), S("A")
+  S("12px"), S("-"), S("A"), S("0xe"), S("0x1E"), S("-0.0"), S("1_0.5"), S("00012"), S("1e+2"), S("-.5e1")
 >>
 NGrid == Len(GridSeq)
 Tier == IF "TIER" \in DOMAIN IOEnv THEN IOEnv.TIER ELSE "quick"
@@ -111,6 +111,10 @@ PairLaws(a, b) ==
      /\ B("&&", a, b) = (IF ToBool(a) THEN b ELSE a) /\ B("||", a, b) = (IF ToBool(a) THEN a ELSE b)
      \* compound assignment is Get; Op; Put
      /\ \A op \in CompoundOps : CmpdOp(op, a, b).after = B(op, a, b)
+     \* the implementation-shaped model with every deviation switched off is the reference
+     /\ \A ir \in BOOLEAN : \A oi \in 1..Len(BinOpSeq) :
+           LET op == BinOpSeq[oi]  x1 == ABinOp(op, AIn(a, ir, {}), AIn(b, ir, {}), {})
+           IN (IF x1.k = "approx" THEN x1 ELSE AOut(x1)) = B(op, a, b)
 SingleLaws(a) ==
   LET x == ToNumberD(a)
       inc == UpdOp("++", TRUE, a)  pinc == UpdOp("++", FALSE, a)
@@ -126,6 +130,12 @@ SingleLaws(a) ==
                         /\ NumTextOK(DFromW(a.w), ToStringU(a)))
      /\ (a.k = "str" => StrDenotes(a.u, x) /\ DCanon(x))
      /\ IsT(B("===", a, a)) = (a.k # "num" \/ ~WIsNaN(a.w))
+     \* the implementation-shaped model with every deviation switched off is the reference
+     /\ \A ir \in BOOLEAN :
+           /\ \A oi \in 1..Len(UnOpSeq) : AOut(AUnOp(UnOpSeq[oi], AIn(a, ir, {}), {})) = UnOp(UnOpSeq[oi], a)
+           /\ \A op \in UpdateOps : \A pre \in BOOLEAN :
+                 LET u1 == AUpdOp(op, pre, AIn(a, ir, {}), {})  u0 == UpdOp(op, pre, a)
+                 IN AOut(u1.res) = u0.res /\ AOut(u1.after) = u0.after
 LawsHold == CASE ph = "start" -> \A gi \in GridIdx : GridSeq[gi].k \in PrimKinds /\ (GridSeq[gi].k = "num" => NumResultOK(GridSeq[gi]))
               [] ph = "row" -> SingleLaws(GridSeq[cur.a])
               [] ph = "pair" -> PairLaws(GridSeq[cur.a], GridSeq[cur.b])
